@@ -526,3 +526,27 @@ func TestC08Restart(t *testing.T) {
 		},
 	})
 }
+
+// C04Restart: the same histories judged for C04 ("… never re-notified within repeat_interval … across snapshot reload"):
+// what decides whether an unchanged group is notified again is the notification-log entry, and a restarted instance
+// has only what its snapshot held; an entry it logged itself or merged from a peer before a snapshot opportunity must
+// be there again after the restart, or the first flush after it repeats the notification.
+func TestC04Restart(t *testing.T) {
+	pbt.Run(t, pbt.Spec[c11mScenario]{
+		Property: "C04", Name: "C04Restart",
+		Rule: "the scenarios of C11Maintenance (local Log calls, entries merged from a peer's gossip, advances under the real Maintenance loops with their periodic snapshots, then a clean shutdown or a kill after a quiet interval, then a start from the snapshot file), judged for C04: every unexpired notification-log record covered by a snapshot opportunity, whether logged here or received from a peer, is held again after the restart (kinds nflog-differs, start-refused). Non-trivial: the log changed after a periodic snapshot had been written.",
+		Gen:  genC11M,
+		Exec: func(sc c11mScenario) pbt.Result {
+			res := execC11M(sc)
+			kept := res.Violations[:0]
+			for _, v := range res.Violations {
+				switch v.Kind {
+				case "nflog-differs", "start-refused", "harness":
+					kept = append(kept, v)
+				}
+			}
+			res.Violations = kept
+			return res
+		},
+	})
+}
